@@ -80,6 +80,7 @@ type State struct {
 	trail   []string
 	defs    map[int]*seqDef // pending definitional seqEq markers
 	definable map[int]bool
+	opaque  int // !=0: event builtins refer to the (invisible) trace of callee activation #opaque
 }
 
 type chanQuery struct {
@@ -95,7 +96,7 @@ type seqDef struct {
 func (st *State) top() *Frame { return st.frames[len(st.frames)-1] }
 
 func (st *State) clone() *State {
-	n := &State{pure: st.pure, chanVer: st.chanVer, steps: st.steps, definable: st.definable}
+	n := &State{pure: st.pure, chanVer: st.chanVer, steps: st.steps, definable: st.definable, opaque: st.opaque}
 	n.frames = make([]*Frame, len(st.frames))
 	for i, f := range st.frames {
 		nf := *f
@@ -161,6 +162,7 @@ type Obligation struct {
 	PC     []*Term
 	Goal   *Term
 	Cover  bool // vacuity check: PC (and Goal) must be satisfiable
+	Alts   [][]*Term // cover.any: alternative path conditions, one of which must be satisfiable
 	ctx    *Ctx
 	Inputs []namedTerm // function inputs for model extraction
 	Trail  string
